@@ -456,7 +456,7 @@ func genC07(g *G) {
 			excluded = append(excluded, self)
 		case 1:
 			self = "9"
-			if contains(holders, "9") {
+			if c07Contains(holders, "9") {
 				self = holders[0]
 			}
 		case 2:
@@ -521,7 +521,7 @@ func genC07(g *G) {
 	}
 }
 
-func contains(xs []string, x string) bool {
+func c07Contains(xs []string, x string) bool {
 	for _, y := range xs {
 		if y == x {
 			return true
